@@ -15,7 +15,7 @@ from common import rng, run_vrun, short
 from apicodec import Big, Sl, enc, dec, canon, show, outcome
 
 PID = 'C14'
-ALPHA = ['a', 'b', '\u00e9', '\u20ac', '\U0001f600', '\ufffd', '\u0161', "'", '"', '\\', '\n', '\x00', ' ', '\u00a0', '\u0085']
+ALPHA = ['a', 'b', '\u00e9', '\u20ac', '\U0001f600', '\ufffd', '\u0161', "'", '"', '\\', '\n', '\x00', ' ', '\u00a0', '\u0085', '\x1f']
 METHODS = ['find', 'count', 'startswith', 'endswith', 'split', 'join', 'strip', 'lstrip', 'rstrip', 'replace']
 EXC = (IndexError, ValueError, TypeError, OverflowError)
 
@@ -159,6 +159,14 @@ def ops_for(s, r, full):
         for a in range(0, n + 1):
             out.append(('meth:find', [s, x, a]))
         out.append(('meth:count', [s, x, r.randrange(0, n + 1), r.randrange(0, n + 2)]))
+    # bounds far out of range are clipped like slice bounds, whatever their size
+    HB = [2 ** 100, -(2 ** 100), 2 ** 63, -(2 ** 63) - 1, 2 ** 63 - 1, -(2 ** 63)]
+    x0 = chars[0] if chars else ''
+    for m in ('meth:find', 'meth:count', 'meth:startswith', 'meth:endswith'):
+        out.append((m, [s, x0, r.choice(HB)]))
+        out.append((m, [s, x0, r.choice(HB), r.choice(HB)]))
+        out.append((m, [s, x0, 0, r.choice(HB)]))
+        out.append((m, [s, x0, None, r.choice(HB)]))
     out.append(('meth:find', [s, chars[0] if chars else '', None, None]))
     out.append(('meth:count', [s, chars[0] if chars else '', None]))
     pre = sorted({s[:1], s[:2], s[-1:], s[-2:], s[1:2], '', ab, s})
@@ -529,7 +537,7 @@ def run(tier, rep):
     rep.extra.update({'subject_strings': len(subjects), 'string_op_instances': nops, 'roundtrip_values': len(rt), 'roundtrips_equal': rt_ok, 'source_programs': len(progs), 'oracle_disagreement_src': src_dis,
                       'op_arg_classes': len(clean), 'op_arg_classes_without_a_clean_case': sorted('|'.join(k) for k, v in clean.items() if v[0] == 0)[:80],
                       'str_methods_probed_present': METHODS})
-    rep.rule = ('every string of length 0..3 over the 15-character alphabet {a, b, e-acute, euro sign, U+1F600, U+FFFD, U+0161 (low byte = "a"), \', ", \\, newline, NUL, space, U+00A0, U+0085} (lengths 0..2 with every operation instance, '
+    rep.rule = ('every string of length 0..3 over the 16-character alphabet {a, b, e-acute, euro sign, U+1F600, U+FFFD, U+0161 (low byte = "a"), U+001F (white space for Python, not for Unicode), \', ", \\, newline, NUL, space, U+00A0, U+0085} (lengths 0..2 with every operation instance, '
                 'length 3 and the seeded sample of lengths 4..12 with 22 seeded instances each%s) x {len, every index, slices, iteration, in, find/count with start/end over -7..7, startswith/endswith with start/end and tuples, '
                 'split with/without sep and maxsplit, join, strip/lstrip/rstrip with/without chars, replace with/without count, six comparisons, +, *, ord, chr}; repr->compile(eval)->run round trip of every subject string, '
                 'bytes 0..255, boundary ints, finite floats of the C15 lattice, nested tuples/lists incl. () and 1-tuples. distinct non-trivial = distinct (operation, operands) judged + distinct round-trip values + distinct source expressions'
